@@ -1,9 +1,17 @@
+mod c03;
+mod c04;
+mod c07;
+mod c11;
 mod c17;
 
 fn main() {
     let args = vcore::parse_args();
     let which = args.rest.first().cloned().unwrap_or_default();
     let code = match which.as_str() {
+        "C03" => c03::run(&args),
+        "C04" => c04::run(&args),
+        "C07" => c07::run(&args),
+        "C11" => c11::run(&args),
         "C17" => c17::run(&args),
         other => {
             eprintln!("p-common: unknown property '{other}'");
